@@ -60,8 +60,22 @@ class Twin:
         return 'Twin(%s)' % self.ident
 
 
+ODD_TYPES = (StreamClosed, StopAsyncIteration, StopIteration, GeneratorExit, KeyError,
+             TimeoutError)
+
+
+def odd(ident):
+    """payloads that are exception *instances* - among them the very types that streams use
+    internally to signal their end: as a payload they are values like any other"""
+    payload = ODD_TYPES[sum(map(ord, ident)) % len(ODD_TYPES)](ident)
+    payload.ident = ident
+    return payload
+
+
 def unwrap(payload):
-    return payload.ident if isinstance(payload, Twin) else payload
+    if isinstance(payload, (Twin, BaseException)):
+        return payload.ident
+    return payload
 
 
 def n_cases(tier):
@@ -86,10 +100,18 @@ def make_case(seed, index, tier):
                           'mode': rng.choice(['get', 'get', 'iter', 'iter+get', 'process']),
                           'count': rng.randint(1, 5), 'offset': rng.choice(GRID),
                           'work': rng.choice([0, 0, 0.5, 1])})
-    return {'seed': seed, 'index': index, 'tier': tier,
+    burst = 0
+    if index % 57 == 7:
+        # a backlog of tens of thousands of items before anybody drains it
+        burst = 70000 if index == 7 else rng.choice([300, 5000])
+        producers[0]['ops'].insert(0, {'offset': 0, 'op': 'burst', 'n': burst})
+        consumers = consumers[:2]
+        consumers[0].update(mode='iter', count=10 ** 9, offset=2, work=0.001)
+    return {'seed': seed, 'index': index, 'tier': tier, 'burst': burst,
             'scenario': {'producers': producers, 'consumers': consumers},
             'twins': rng.random() < 0.4, 'reused': rng.random() < 0.4,
-            'nones': rng.random() < 0.25, 'early': rng.random() < 0.3}
+            'nones': rng.random() < 0.25, 'early': rng.random() < 0.3,
+            'odd': rng.random() < 0.25}
 
 
 class QueueChecker:
@@ -102,8 +124,13 @@ class QueueChecker:
         self.put_done = set()
         self.rejected = set()
         self.received = []         # (item, consumer)
+        self.received_set = set()
+        self.put_set = set()
+        self.head = 0              # everything before this index of put_order is accounted for
         self.pending = []          # consumers waiting, in request order
         self.closed = False
+        self.max_transit = 0       # number of process consumers (set by the scenario)
+        self.broken = False
         self.allow_lost = 0        # receives of struck process consumers that may have happened
         self.stats = {'items_received': 0, 'gets_waited': 0, 'gets_closed': 0,
                       'puts_rejected': 0, 'withdrawn': 0, 'puts_interrupted': 0,
@@ -114,13 +141,23 @@ class QueueChecker:
         self.sess.violation('c10:' + mechanism, msg)
 
     def buffered(self):
-        got = {item for item, _ in self.received}
-        return [item for item in self.put_order if item not in got and item not in self.rejected]
+        got = self.received_set
+        return [item for item in self.put_order[self.head:]
+                if item not in got and item not in self.rejected]
+
+    def oldest_buffered(self):
+        """first item of the shadow buffer, in O(1) amortised (large backlogs)"""
+        order = self.put_order
+        while self.head < len(order) and (order[self.head] in self.received_set
+                                          or order[self.head] in self.rejected):
+            self.head += 1
+        return order[self.head] if self.head < len(order) else None
 
     # producers
     def put_start(self, who, item):
         self.arena.log(who, 'put-start', item)
         self.put_order.append(item)
+        self.put_set.add(item)
 
     def put_done_add(self, item):
         self.put_done.add(item)
@@ -165,20 +202,30 @@ class QueueChecker:
             self.stats['contended_receives'] += 1
         if who in self.pending:
             self.pending.remove(who)
-        if any(item == other for other, _ in self.received):
+        if item in self.received_set:
             self.violation('duplicate', 'item %s received twice (%s)' % (item, who))
-        if item not in self.put_order:
+        if item not in self.put_set and item not in self.put_order:
             self.violation('invented', 'item %s was never put' % (item,))
         elif item in self.rejected:
             self.violation('rejected-item-received', 'item %s of a rejected put received' % item)
-        else:
+        elif self.oldest_buffered() != item and len(self.sess.violations) < 20 \
+                and not self.broken:
+            # (slow path) items in transit to a process consumer are excused
             transit = self.in_transit()
+            if len(transit) > self.max_transit + self.allow_lost:
+                # every process consumer holds at most one item between taking and reporting it
+                self.broken = True
+                self.violation('lost', '%d items (%s ...) have left the buffer without being '
+                                       'received; at most %d can be in transit to process '
+                                       'consumers' % (len(transit), transit[:3],
+                                                      self.max_transit))
             expected = [other for other in self.buffered() if other == item
                         or other not in transit]
             if expected and expected[0] != item:
                 self.violation('fifo', '%s received %s but the oldest buffered item is %s' % (
                     who, item, expected[0]))
         self.received.append((item, who))
+        self.received_set.add(item)
 
     def get_closed(self, who):
         self.arena.log(who, 'get-closed')
@@ -205,7 +252,7 @@ class QueueChecker:
         """items that have left the real buffer but have not been reported as received yet:
         a process of the compatibility layer takes an item in one activation and hands it to
         its generator in a later one"""
-        real = [unwrap(item) for item in self.queue._buffer]
+        real = {unwrap(item) for item in self.queue._buffer}
         return [item for item in self.buffered() if item not in real]
 
     def withdrawn(self, who):
@@ -219,9 +266,10 @@ class QueueChecker:
         pending_nones = [item for item in self.buffered() if item in self.none_idents]
         final = [item if item is not None else (pending_nones.pop(0) if pending_nones else None)
                  for item in final]
-        got = [item for item, _ in self.received]
+        got = self.received_set
+        final_set = set(final)
         lost = [item for item in self.put_done
-                if item not in got and item not in final and item not in self.rejected]
+                if item not in got and item not in final_set and item not in self.rejected]
         if len(lost) > self.allow_lost:
             self.violation('lost', 'items %s of completed puts were neither received nor are '
                                    'they still buffered (%d receives of struck process consumers '
@@ -232,7 +280,7 @@ class QueueChecker:
             if item in self.rejected:
                 self.violation('rejected-item-stored', 'item %s of a rejected put is buffered'
                                % item)
-        if final != [item for item in self.put_order if item in final]:
+        if final != [item for item in self.put_order if item in final_set]:
             self.violation('fifo', 'final buffer %s is not in put order' % final)
         # nobody keeps waiting while there is something to receive (or the queue is closed)
         self.stats['quiescent_waiters_checked'] = self.stats.get(
@@ -277,7 +325,7 @@ def build_for(case):
 
     def build(arena):
         queue = Queue()
-        wrap = Twin if case.get('twins') else str
+        wrap = Twin if case.get('twins') else odd if case.get('odd') else str
         if case.get('nones'):
             # every other item is None (a valid item: it must not look like 'nothing there')
             def wrap(item, plain=wrap):
@@ -288,6 +336,8 @@ def build_for(case):
         if case.get('reused'):
             earlier_simulation(queue)
         checker = QueueChecker(arena, queue)
+        checker.max_transit = sum(1 for spec in scenario['consumers']
+                                  if spec['mode'] == 'process')
 
         def producer(spec):
             name = spec['name']
@@ -296,7 +346,7 @@ def build_for(case):
                 for number, op in enumerate(spec['ops']):
                     item = '%s.%d' % (name, number)
                     prepared = None
-                    if case.get('early') and number % 2 == 0:
+                    if case.get('early') and number % 2 == 0 and op['op'] != 'burst':
                         # the awaitable of the operation is made some time before it is awaited
                         # (like `scope.do(queue.put(x), after=...)`): it acts when awaited
                         prepared = queue.close() if op['op'] == 'close' else queue.put(wrap(item))
@@ -306,6 +356,21 @@ def build_for(case):
                     if op['op'] == 'close':
                         checker.close_start(name)
                         await (prepared if prepared is not None else queue.close())
+                        continue
+                    if op['op'] == 'burst':
+                        for sub_number in range(op['n']):
+                            item = '%s.%d.%d' % (name, number, sub_number)
+                            checker.put_order.append(item)
+                            checker.put_set.add(item)
+                            try:
+                                await queue.put(wrap(item))
+                            except StreamClosed:
+                                checker.rejected.add(item)
+                                break
+                            checker.put_done.add(item)
+                            if sub_number % 500 == 499:
+                                await (time + 0.001)
+                        checker.stats['burst_items'] = checker.stats.get('burst_items', 0) + op['n']
                         continue
                     if checker.closed:
                         checker.put_start_closed_mark(item)
@@ -452,5 +517,9 @@ def check(sess, arena, checker, outcome, plan):
 
 def run_case(case):
     rng = random.Random('%s/%s/c10-inj' % (case['seed'], case['index']))
+    if case.get('burst'):
+        return inject.explore(case, build_for(case), rng, check, case['tier'],
+                              quick_samples=2, max_plans=2 if case['burst'] > 10000 else 8,
+                              budget=800000)
     return inject.explore(case, build_for(case), rng, check, case['tier'],
                           quick_samples=12, max_plans=400)
